@@ -1,0 +1,84 @@
+//go:build verif
+
+// Contracts for the deductive verifier in /verif (comment-only; compiled only with -tags verif).
+
+package ctpolicy
+
+//@ func (*LogGroupInfo).setMinInclusions
+//@ props C17
+//@ arith int
+//@ requires group != nil
+//@ modifies group.MinInclusions
+//@ ensures [negative-minimum-refused-and-nothing-assigned] i < 0 ==> result != nil && group.MinInclusions == old(group.MinInclusions)
+//@ ensures [minimum-assigned] i >= 0 ==> group.MinInclusions == i
+//@ ensures [a-minimum-no-group-of-that-size-can-reach-is-an-error] i >= 0 ==> (result != nil <==> i > len(group.LogURLs))
+
+//@ func (*LogGroupInfo).populate
+//@ props C17
+//@ nobody
+//@ requires group != nil && ll != nil && included != nil
+//@ modifies group.LogURLs, group.LogWeights
+//@ ensures [fresh-member-and-weight-maps] group.LogURLs != nil && group.LogWeights != nil
+//@ note body not verified: it calls the membership predicate it is handed (side-effect-free operator tests in both policies) for every operator of the list
+
+//@ func lifetimeInMonths
+//@ props C17
+//@ arith int
+//@ pure
+//@ site Date#1 as sd
+//@ site Date#2 as ed
+//@ requires cert != nil
+//@ ensures [whole-months-between-not-before-and-not-after] result == (int(ed.res0) - int(sd.res0)) * 12 + (int(ed.res1) - int(sd.res1)) - (ed.res2 < sd.res2 ? 1 : 0)
+//@ at sd assert [from-not-before] sd.t == cert.NotBefore
+//@ at ed assert [to-not-after] ed.t == cert.NotAfter
+
+//@ func BaseGroupFor
+//@ props C17
+//@ arith int
+//@ modifies nothing
+//@ site populate#1 as pop
+//@ site setMinInclusions#1 as smi
+//@ requires approved != nil
+//@ fresh result0
+//@ ensures [base-group-over-every-log-with-the-given-minimum] result0 != nil && result0.IsBase && result0.Name == BaseName && (incCount >= 0 ==> result0.MinInclusions == incCount)
+//@ ensures [error-exactly-when-the-minimum-cannot-be-assigned] result1 == smi.res
+//@ at pop assert [every-operator-is-included] pop.ll == approved
+//@ at smi assert [minimum-is-the-count-asked-for] smi.i == incCount
+
+// Chrome: one SCT from a Google log, one from a non-Google log, and 2 / 3 / 4 / 5 in total for
+// lifetimes below 15 months / up to 27 / up to 39 / longer.
+//@ func (ChromeCTPolicy).LogsByGroup
+//@ props C17
+//@ arith int
+//@ site setMinInclusions#1 as g1
+//@ site setMinInclusions#2 as g2
+//@ site lifetimeInMonths#1 as lm
+//@ site BaseGroupFor#1 as bg
+//@ requires cert != nil && approved != nil
+//@ ensures [policy-that-cannot-be-met-is-an-error] (g1.called && g1.res != nil) || (g2.called && g2.res != nil) || (bg.called && bg.res1 != nil) ==> result1 != nil
+//@ ensures [three-groups-google-non-google-and-base] result1 == nil ==> has(result0, "Google-operated") && has(result0, "Non-Google-operated") && has(result0, BaseName) && result0[BaseName] == bg.res0 && result0["Google-operated"] != nil && result0["Non-Google-operated"] != nil && !result0["Google-operated"].IsBase && !result0["Non-Google-operated"].IsBase
+//@ ensures [one-google-and-one-non-google-sct] result1 == nil ==> result0["Google-operated"].MinInclusions == 1 && result0["Non-Google-operated"].MinInclusions == 1
+//@ at g1 assert [google-group-needs-one] g1.i == 1
+//@ at g2 assert [non-google-group-needs-one] g2.i == 1
+//@ at bg assert [total-by-lifetime] bg.approved == approved && bg.incCount == (lm.res < 15 ? 2 : (lm.res <= 27 ? 3 : (lm.res <= 39 ? 4 : 5)))
+//@ at lm assert [lifetime-of-this-certificate] lm.cert == cert
+
+// Apple: 2 / 3 / 4 / 5 SCTs in total by the same lifetime thresholds.
+//@ func (AppleCTPolicy).LogsByGroup
+//@ props C17
+//@ arith int
+//@ site lifetimeInMonths#1 as lm
+//@ site BaseGroupFor#1 as bg
+//@ requires cert != nil && approved != nil
+//@ ensures [policy-that-cannot-be-met-is-an-error] bg.res1 != nil ==> result1 != nil
+//@ ensures [only-the-base-group] result1 == nil ==> has(result0, BaseName) && result0[BaseName] == bg.res0
+//@ at bg assert [total-by-lifetime] bg.approved == approved && bg.incCount == (lm.res < 15 ? 2 : (lm.res <= 27 ? 3 : (lm.res <= 39 ? 4 : 5)))
+//@ at lm assert [lifetime-of-this-certificate] lm.cert == cert
+
+//@ func GroupByLogs
+//@ props C17
+//@ nobody
+//@ pure
+//@ fresh result
+//@ ensures [a-fresh-table] result != nil
+//@ note body not verified (maps of maps built by nested iteration): the table maps each log URL to the names of the groups that contain it
